@@ -71,7 +71,7 @@ impl FaultPlan {
     }
 }
 
-pub const STACK_BUDGET_DEFAULT: usize = 192 * 1024;
+pub const STACK_BUDGET_DEFAULT: usize = 512 * 1024;
 
 pub struct SimState {
     /// Logical time: fallible reader primitive calls so far (monotone over the run).
